@@ -71,6 +71,40 @@ class Fragment:
         m = self._find(anchor, occ)
         return self.insert_at(m.end(), text)
 
+    def arm_body(self, pattern_re, occ=1):
+        """(start, end) of the inside of the block of the match arm whose pattern matches `pattern_re` (regex ending before `=>`)."""
+        ms = list(re.finditer(pattern_re + r"\s*=>\s*\{", self.orig, re.S))
+        if len(ms) < occ:
+            raise AnchorLost("%s: match arm %r not found" % (self.name, pattern_re))
+        m = ms[occ - 1]
+        toks = self._toks()
+        i = next(ix for ix, t in enumerate(toks) if t[1] == m.end() - 1)
+        c = toks[match_close(self.orig, toks, i)][1]
+        inner = self.orig[m.end():c]
+        a = m.end() + (len(inner) - len(inner.lstrip()))
+        b = m.end() + len(inner.rstrip())
+        return (a, b)
+
+    def enclosing_block(self, off):
+        """(open, close) offsets of the innermost `{ .. }` block that contains offset `off`."""
+        toks = self._toks()
+        i = next((ix for ix, t in enumerate(toks) if t[1] >= off), None)
+        depth = 0
+        j = i - 1
+        while j >= 0:
+            k, s_, e_ = toks[j]
+            ch = self.orig[s_:e_]
+            if k == "punct" and ch in ")]}":
+                depth += 1
+            elif k == "punct" and ch in "([{":
+                if depth == 0:
+                    if ch != "{":
+                        raise AnchorLost("%s: offset %d is inside (..) or [..]" % (self.name, off))
+                    return (s_, toks[match_close(self.orig, toks, j)][1])
+                depth -= 1
+            j -= 1
+        raise AnchorLost("%s: no enclosing block at %d" % (self.name, off))
+
     def stmt_extent(self, off):
         """(start, end) of the statement that starts at offset `off`: up to and including its depth-0 `;`."""
         toks = self._toks()
